@@ -54,7 +54,10 @@ def _check_hashable(v) -> None:
     also inside tuples) is refused with TypeError.  Never realizes anything."""
     with NoTracing():
         t = type(v)
-        unhashable = getattr(t, "__hash__", None) is None
+        # only stand-ins of types that are unhashable in plain Python: some executor proxies of *hashable* types (uniform
+        # tuples, concatenations) have no __hash__ of their own and must not be refused here
+        unhashable = getattr(t, "__hash__", None) is None and (
+            issubclass(t, (list, dict, set, bytearray)) or t.__name__ in ("ShellMutableSequence", "ShellMutableSet", "ShellMutableMap", "SymbolicList", "SymbolicDict", "SymbolicByteArray"))
         name = t.__name__
         items = tuple(v) if t is tuple else ()
     if unhashable:
